@@ -408,7 +408,8 @@ def summarize(tier: str, seed: int, merged: dict) -> dict:
             "alone, under each unary operator, on each side of each binary operator and as argument of each signature "
             "class; (d) all chains of 4 binary operators over 5 operands and chains with one unary prefix at every operand "
             f"position ({3 if tier == 'quick' else 4} operators); 3 renderings; 4 scalar assignments + arrays; ill-formed "
-            "variants of (a, subsampled 1/8 for 2-node trees), (c), (d, 1/16). states = trees, transitions = loads + "
+            "variants of (a, subsampled 1/8 for 2-node trees), (c), (d, 1/16); own-variable sharing, name clashes, and Function terms naming engine "
+            "variables in engines built through 6 construction paths. states = trees, transitions = loads + "
             "evaluations, traces = reference evaluations; non-trivial = >= 2 nodes and a finite value"
         ),
         "exhaustive": True,
